@@ -145,6 +145,26 @@ def lib_delegating(tag: str, fn, *args, **kwargs):
         raise
 
 
+def case_dir(prefix: str, root: str | None = None) -> str:
+    """A scratch directory for one case.  Every case of a worker process gets the SAME path again (the caller removes the
+    directory when the case is over; the first free of <root>/<prefix>-p<pid>/case0..7 is taken, so directories that are alive
+    at the same time still differ): a path that held one descriptor / parent / image a moment ago now holds another, which is
+    what a long-running caller sees when files are replaced, and what a cache keyed by path alone gets wrong."""
+    import tempfile
+
+    root = root or os.environ.get("VERIF_SCRATCH") or ("/dev/shm" if os.path.isdir("/dev/shm") else tempfile.gettempdir())
+    base = os.path.join(root, f"{prefix}-p{os.getpid()}")
+    os.makedirs(base, exist_ok=True)
+    for k in range(8):
+        d = os.path.join(base, f"case{k}")
+        try:
+            os.mkdir(d)
+            return d
+        except FileExistsError:
+            continue
+    return tempfile.mkdtemp(prefix="case-", dir=base)
+
+
 class MinimalHandle:
     """A caller-side file object with nothing but read / seek / tell / close (no readinto, seekable, fileno, name, peek ...), as a
     hand-written window onto a container file or an mmap-like object would be.  `seek_returns_none` mimics objects whose seek()
@@ -201,6 +221,28 @@ def also_minimal(out, spec, fh, open_fn, model, requests, tag, limit: int = 4 <<
             out.fail(err.sig(tag + "-reopen"), f"second open on the same file object raised {err.describe()}")
             return
         check_reads(out, v, model, requests[:4], tag + "-reopen")
+        return
+    if how == "shared":
+        # two readers over one caller-owned file object, used in turn (each must position the handle itself), with the caller
+        # also moving the handle in between
+        out.cls("two-readers-one-handle")
+        h = io.BytesIO(fh.materialize(limit))
+        v1, err = lib(open_fn, h)
+        if not err:
+            h.seek(0)
+            v2, err = lib(open_fn, h)
+        if err:
+            out.fail(err.sig(tag + "-shared-open"), f"open raised {err.describe()}")
+            return
+        rs = [r for r in requests[:5] if r[1] > 0]
+        for i, r in enumerate(rs):
+            other = rs[(i + 1) % len(rs)]
+            check_reads(out, v1, model, [r], tag + "-shared-a")
+            check_reads(out, v2, model, [other], tag + "-shared-b")
+            h.seek((i * 7919) % max(1, len(h.getbuffer())))
+            check_reads(out, v1, model, [[r[0] + r[1], min(r[1], 70000)]] if r[0] + r[1] < model.size else [r], tag + "-shared-a")
+            if out.failures:
+                return
         return
     out.cls("via-minimal-handle")
     v, err = lib(open_fn, MinimalHandle(fh.materialize(limit), seek_returns_none=how == "seek-none"))
